@@ -13,8 +13,8 @@
 (*         ssh: "default"|"empty", pp: BOOLEAN, pa: like fa,               *)
 (*         pline: BOOLEAN (PROXY line before request 1), idx: 1|2,         *)
 (*         wk: "sync"|"gthread"|"async", hs: Seq(header kind)]             *)
-(* obs  = [out: "app"|"reject", scheme, sn (SCRIPT_NAME set to the header  *)
-(*         value), addr: "peer"|"declared", amb (some environ variable     *)
+(* obs  = [out: "app"|"reject", scheme, sn (SCRIPT_NAME is not empty, i.e.   *)
+(*         it was taken from some request header), addr: "peer"|"declared", amb (some environ variable     *)
 (*         received values of two differently spelled field names, none of *)
 (*         which is a forwarder header honoured from a permitted peer -    *)
 (*         the documented exception "mapped regardless of header_map")]    *)
